@@ -1,2 +1,4 @@
 import RoProps.C01
 import RoProps.C04
+import RoProps.C08
+import RoProps.C17
